@@ -38,6 +38,41 @@ def setup(c):
     install.contract('spectrum.eigenfre', 'eigen', c17.post_eigen)
 
 
+def reference_model_peak(cls, params, x, p, NFFT, L):
+    """Bin (0..L-1) at which an independently fitted model of the same kind has its maximum, or None.  Used only
+    when an over-parameterised model-based estimate peaks away from the tone: the free poles of such a fit on a
+    60 dB tone occasionally dominate (measured: ~1 fit in 300 for ARMA(4,4), ~1 in 1e5 for covariance order 8), which
+    is the estimator, not the axis, exactly when the monitor's own fit peaks at the same reported frequency."""
+    try:
+        if cls in ('pcovar', 'pmodcovar'):
+            from .c14 import ls_fit
+            a = ls_fit(x, params['order'], 'covariance' if cls == 'pcovar' else 'modified')[1]
+            b = []
+        elif cls == 'pyule':
+            a = refs.levinson_ref(refs.biased_ac(x, params['order']), params['order'])[0]
+            b = []
+        elif cls == 'pburg':
+            from .c13 import burg_ref
+            a = refs.stepup(burg_ref(x, params['order'])[0])[1:]
+            b = []
+        elif cls == 'parma':
+            a, b = np.asarray(p.ar), np.asarray(p.ma)          # no independent ARMA fit: the model the object reports
+        else:
+            return None
+        A = refs.poly_on_grid(np.concatenate([[1.0], np.asarray(a)]), NFFT)
+        B = refs.poly_on_grid(np.concatenate([[1.0], np.asarray(b)]), NFFT) if len(b) else 1.0
+        model = (np.abs(B) ** 2 / np.abs(A) ** 2)[:L]
+        return int(np.argmax(model))
+    except Exception:
+        return None
+
+
+def over_parameterised(cls, params, cplx):
+    need = 1 if cplx else 2
+    order = params.get('order', params.get('P'))
+    return cls in ('pcovar', 'pmodcovar', 'pyule', 'pburg', 'parma') and order is not None and order > need
+
+
 def resolve_nfft(kind, N):
     if kind is None:
         return N
@@ -149,26 +184,20 @@ def run_case(c, d):
     if cplx:
         dist = abs((bin_at - k + NFFT // 2) % NFFT - NFFT // 2)
         tol = E.tol_complex_tone(cls, params, N, NFFT)
+        if dist > tol and over_parameterised(cls, params, cplx) and \
+                reference_model_peak(cls, params, x, p, NFFT, len(psd)) == idx:
+            c.discard('tone-clause:over-parameterised-fit-peaks-at-a-spurious-pole(reference-fit-agrees)')
+            return
         c.err('peak-distance:%s' % cls, dist)
         c.require('complex-tone:maximum-at-the-entry-of-bin-k', dist <= tol,
                   dict(det, peak_bin=bin_at, distance=dist, allowed=tol), feats)
     else:
         hw = E.halfwidth_real(cls, params, N, NFFT)
         dist = abs(bin_at - abs(k))
-        if cls == 'parma' and dist > hw and params['P'] > 2:
-            # an ARMA model with more poles than the sinusoid needs has free poles; on a 60 dB tone one of them may
-            # (rarely: 1 in ~300 fits at P = 4) dominate.  That is a matter of the fit, not of the axis, exactly when
-            # the model the object itself reports (its ar / ma), evaluated by the monitor's own explicit sums on
-            # k/NFFT, has its maximum at the very frequency the object reports for its maximum.
-            try:
-                A = refs.poly_on_grid(np.concatenate([[1.0], np.asarray(p.ar)]), NFFT)
-                B = refs.poly_on_grid(np.concatenate([[1.0], np.asarray(p.ma)]), NFFT)
-                model = (np.abs(B) ** 2 / np.abs(A) ** 2)[:len(psd)]
-                if int(np.argmax(model)) == bin_at:
-                    c.discard('tone-clause:over-parameterised-arma-fit-peaks-at-a-spurious-pole(axis-consistent)')
-                    return
-            except Exception:
-                pass
+        if dist > hw and over_parameterised(cls, params, cplx) and \
+                reference_model_peak(cls, params, x, p, NFFT, len(psd)) == idx:
+            c.discard('tone-clause:over-parameterised-fit-peaks-at-a-spurious-pole(reference-fit-agrees)')
+            return
         c.err('peak-distance-real:%s' % cls, dist)
         c.require('real-sinusoid:maximum-within-main-lobe-half-width', dist <= hw,
                   dict(det, peak_bin=bin_at, distance=dist, allowed=hw), feats)
